@@ -40,3 +40,8 @@ Proof. intros. apply Gen_detrend0_csd_ref. Qed.
 Print Assumptions C08_numba_detrend0_invariant.
 Print Assumptions C08_poly_csd_each_channel_own_alpha.
 Print Assumptions C08_poly_kills_span_cross_numba.
+Print Assumptions C08_detrend0_kills_constants.
+Print Assumptions C08_stats_invariant_under_offset.
+Print Assumptions C08_poly_kills_span_auto.
+Print Assumptions C08_order_m1_is_raw.
+Print Assumptions C08_detrend0_csd_each_channel_own_mean.
